@@ -283,6 +283,8 @@ class Rig:
                 return ('ok', await fn(*a, **kw))
             except BaseException as e:  # noqa: BLE001
                 return ('exc', type(e).__name__, str(getattr(e, 'message', '') or e)[:80])
+        self.loop.kern.ntx = 0
+        self.loop.kern.tx_cap = 4000
         st, res = self.loop.run(w())
         if st == 'hang':
             return ('hang', res)
